@@ -36,7 +36,7 @@ func languageSweep(r *ev.Run, G *gprops, gs *gstats, vers []int, thorough bool) 
 	r.Phase("length boundaries", func() { lengthBoundaries(r, G, gs, vers, thorough) })
 	r.Phase("case variants", func() { caseVariants(r, G, gs, vers) })
 	r.Phase("decorations", func() { decorations(r, G, gs, vers) })
-	if G.accept || G.decOn {
+	if G.accept || G.decOn || G.total {
 		r.Phase("decoder re-use", func() { reusePhase(r, vers) })
 	}
 	r.Phase("value lattices", func() { valueLattices(r, G, gs, vers, thorough) })
